@@ -324,7 +324,7 @@ func (sp *Spec) renderItems(items []Item, indent string, sets *[]string) string 
 		case it.Set != nil && it.Set.Name == "":
 			parts = append(parts, indent+"kessoku.Set(\n"+sp.renderItems(it.Set.Items, indent+"\t", sets)+"\n"+indent+"),")
 		case it.Set != nil:
-			*sets = append(*sets, fmt.Sprintf("var %s = kessoku.Set(\n%s\n)\n", it.Set.Name, sp.renderItems(it.Set.Items, "\t", sets)))
+			*sets = append(*sets, it.Set.Name+"\x00"+fmt.Sprintf("kessoku.Set(\n%s\n)", sp.renderItems(it.Set.Items, "\t", sets)))
 			parts = append(parts, indent+it.Set.Name+",")
 		}
 	}
@@ -357,8 +357,20 @@ func (sp *Spec) renderDecl(file int) string {
 		body := sp.renderItems(inj.Items, "\t", &sets)
 		// nested named sets are collected innermost-last; order of var declarations is irrelevant in Go
 		sort.Strings(sets)
-		for _, s := range sets {
-			b.WriteString(s + "\n")
+		if sp.MultiVarSets && len(sets) >= 2 {
+			// var a, b = kessoku.Set(...), kessoku.Set(...): several sets in ONE var spec
+			var names, bodies []string
+			for _, s := range sets {
+				nb := strings.SplitN(s, "\x00", 2)
+				names = append(names, nb[0])
+				bodies = append(bodies, nb[1])
+			}
+			fmt.Fprintf(&b, "var %s = %s\n\n", strings.Join(names, ", "), strings.Join(bodies, ", "))
+		} else {
+			for _, s := range sets {
+				nb := strings.SplitN(s, "\x00", 2)
+				fmt.Fprintf(&b, "var %s = %s\n\n", nb[0], nb[1])
+			}
 		}
 		fmt.Fprintf(&b, "var _ = kessoku.Inject[%s](\n\t%q,\n%s\n)\n\n", sp.Types[inj.Ret].Expr(), inj.Name, body)
 	}
